@@ -129,12 +129,14 @@ class LexLines(Harness):
     prop = "C11"
     functions = ("PDDLTokenizer.tokenize", "PDDLTokenizer.__init__")
     bound = {"quick": "all one-line texts over the 10-character alphabet {a,B,1,-,(,),;,space,tab,?} up to length 5 (string mode), length 4 (file mode)",
-             "thorough": "same alphabet plus CR, up to length 6 (string) / 5 (file)"}
+             "thorough": "same alphabet plus the CR/LF pair as one symbol, up to length 6 (string) / 5 (file)"}
     rule = "every string over the alphabet up to the length bound; non-trivial = yields at least one token; distinct by text"
     ALPHA = "aB1-();\t ?"
 
     def inputs(self, tier, seed):
-        alpha = self.ALPHA + ("\r" if tier == "thorough" else "")
+        # thorough: CR only as part of a CR/LF pair (a lone CR is a line end for files read with universal newlines but not
+        # for strings; the property speaks of CR/LF layouts)
+        alpha = list(self.ALPHA) + (["\r\n"] if tier == "thorough" else [])
         n = 5 if tier == "quick" else 6
         for k in range(0, n + 1):
             for t in itertools.product(alpha, repeat=k):
